@@ -31,6 +31,8 @@ import (
 	"encoding/binary"
 	"errors"
 	"fmt"
+	"io"
+	rtrace "runtime/trace"
 	"sync"
 	"sync/atomic"
 	"testing"
@@ -64,8 +66,9 @@ type Case struct {
 	ExportTimeoutUs int64    `json:"export_timeout_us"`
 	Blocking        bool     `json:"blocking"`
 	ViaProvider     bool     `json:"via_provider"`
-	Phases          [][][]Op `json:"phases"`   // phase -> goroutine -> ops; phases are separated by barriers
-	Exporter        []int    `json:"exporter"` // behaviour of the n-th ExportSpans call: 0 ok, 1 error, 2 sleep 50us, 3 sleep 1ms, 4 sleep 3ms, 5 block until ctx is done (cap 4ms) and return its error
+	ExecTrace       bool     `json:"exec_trace,omitempty"` // the Go execution tracer (runtime/trace) runs during the program
+	Phases          [][][]Op `json:"phases"`               // phase -> goroutine -> ops; phases are separated by barriers
+	Exporter        []int    `json:"exporter"`             // behaviour of the n-th ExportSpans call: 0 ok, 1 error, 2 sleep 50us, 3 sleep 1ms, 4 sleep 3ms, 5 block until ctx is done (cap 4ms) and return its error
 	Runs            int      `json:"runs"`
 }
 
@@ -77,6 +80,7 @@ func gen(t *rapid.T) Case {
 	c.ExportTimeoutUs = rapid.SampledFrom([]int64{0, 2000, 1e6}).Draw(t, "export_timeout")
 	c.Blocking = rapid.Bool().Draw(t, "blocking")
 	c.ViaProvider = rapid.IntRange(0, 3).Draw(t, "via_provider") == 0
+	c.ExecTrace = c.ViaProvider && rapid.IntRange(0, 2).Draw(t, "exec_trace") == 0
 	next := 0
 	nphases := rapid.IntRange(1, 5).Draw(t, "phases")
 	shutdownSeen := false
@@ -280,6 +284,12 @@ func runOnce(c Case) ([]vk.Violation, map[string]bool) {
 	classes := map[string]bool{}
 	bad := func(kind, format string, a ...any) { vs = append(vs, vk.V(kind, format, a...)) }
 
+	if c.ExecTrace {
+		if err := rtrace.Start(io.Discard); err == nil {
+			defer rtrace.Stop()
+		}
+		classes["go_execution_tracer_running"] = true
+	}
 	clock := &vk.Clock{}
 	logs := &vk.LogCapture{}
 	otel.SetLogger(logr.New(logs))
